@@ -74,18 +74,25 @@ KV = re.compile(r"(\w+)=([^ ,]+)")
 
 
 def parse_model_line(line):
-    """`ok <id> events=.. c0:k=v,... c1:... vr:...`  or  `REJECT <id> <why>`"""
+    """`ok <id> events=.. c0:k=v,... c1:... vr:...`  or  `REJECT <id> <the same summary, up to the rejected event> :: <why>`"""
     toks = line.split(" ", 2)
+    body, why = toks[2] if len(toks) > 2 else "", ""
     if toks[0] == "REJECT":
-        return toks[1], {"ok": False, "why": toks[2] if len(toks) > 2 else ""}
-    out = {"ok": True, "raw": line}
-    for part in toks[2].split(" "):
+        body, _, why = body.partition(" :: ")
+        if not _:
+            body, why = "", toks[2] if len(toks) > 2 else ""
+    out = {"ok": toks[0] == "ok", "raw": line, "why": why}
+    for part in body.split(" "):
         if ":" in part and part.split(":", 1)[0] in ("c0", "c1", "vr"):
             k, rest = part.split(":", 1)
             out[k] = {a: int(b) for a, b in (x.split("=") for x in rest.split(","))}
         elif "=" in part:
             a, b = part.split("=")
             out[a] = int(b)
+    if "c0" not in out:      # REJECT of a malformed trace: nothing was replayed
+        z = dict(fired=0, nInit=0, nReset=0, nStore=0, flen=-1, overlap=0, twoWriters=0, shrunk=0, maxReaders=0, upgrades=0, downgrades=0,
+                 spurious=0, raced=0, racedAt=0, cov=0, idle=0)
+        out.update(c0=dict(z), c1=dict(z), vr=dict(fired=0, fills=0, earlyUse=0, raced=0, racedAt=0), events=0)
     return toks[1], out
 
 
@@ -102,18 +109,28 @@ def run_chunk(exe, specs, tmpdir, keep_trace=False):
         p = subprocess.run([exe, "batch", path], stdout=out, stderr=subprocess.PIPE, universal_newlines=True, timeout=3600)
     with open(tr) as inp:
         m = subprocess.run([CONC_EXE], stdin=inp, stdout=subprocess.PIPE, stderr=subprocess.PIPE, universal_newlines=True, timeout=3600)
-    runs = {sp["id"]: {"spec": sp, "viol": [], "status": "missing", "model": None, "wrong": "?", "decisions": "", "ndec": 0, "events": 0}
+    runs = {sp["id"]: {"spec": sp, "viol": [], "status": "missing", "model": None, "wrong": "?", "decisions": "", "ndec": 0, "events": 0,
+                        "init_entries": [], "vr_entries": []}
             for sp in specs}
-    cur = None
+    cur, evno = None, 0
     with open(tr) as inp:
         for line in inp:
             c = line[0]
-            if c == "E" or c == "V" and line[1] == " ":
-                if keep_trace and cur is not None:
-                    cur.setdefault("trace", []).append(line.rstrip("\n"))
+            if (c == "E" or c == "V") and line[1] == " ":
+                evno += 1
+                if cur is not None:
+                    # harness-side (model-independent) trace of the initialiser entries, used only for what follows a REJECT
+                    if c == "E" and "check-passed" in line:
+                        t = line.split()
+                        cur["init_entries"].append((evno, int(t[2]), int(t[6])))
+                    elif c == "V" and line.endswith(" passed\n"):
+                        cur["vr_entries"].append(evno)
+                    if keep_trace:
+                        cur.setdefault("trace", []).append(line.rstrip("\n"))
                 continue
             if line.startswith("RUN "):
                 cur = runs.get(line.split(" ", 2)[1])
+                evno = 0
             elif line.startswith("VIOL "):
                 t = line.rstrip("\n").split(" ", 4)
                 if t[1] in runs:
@@ -198,14 +215,21 @@ def classify(run):
         return vio, known
     if not mo["ok"]:
         vio.append(("REJECT", "the model cannot take a step the real code took: " + mo["why"]))
+    # what the model saw (on a REJECT: up to the rejected event; later monitor hits are judged by the races seen until then)
+    raced = {c: mo["c%d" % c]["racedAt"] for c in (0, 1) if mo["c%d" % c]["raced"] > 0}
+    vr_raced_at = mo["vr"]["racedAt"] if mo["vr"]["raced"] > 0 else 0
+    if not mo["ok"]:
+        # after the rejected event the model says nothing: fall back on the trace itself (a second thread passed the test while the
+        # real FFT_LEN was still -1 / a second thread passed vr_init's test) so that consequences of F9 are not blamed on the REJECT
+        for c in (0, 1):
+            ent = [(e, f) for e, cc, f in run["init_entries"] if cc == c]
+            if c not in raced and len(ent) >= 2 and all(f == -1 for _, f in ent[:2]):
+                raced[c] = ent[1][0]
+        if not vr_raced_at and len(run["vr_entries"]) >= 2:
+            vr_raced_at = run["vr_entries"][1]
+    if sp.get("warm") and raced:
+        vio.append(("INIT-AFTER-INIT", "initialiser entered in a run that started after a complete initialisation"))
         raced = {}
-        vr_raced_at = 0
-    else:
-        raced = {c: mo["c%d" % c]["racedAt"] for c in (0, 1) if mo["c%d" % c]["raced"] > 0}
-        vr_raced_at = mo["vr"]["racedAt"] if mo["vr"]["raced"] > 0 else 0
-        if sp.get("warm") and raced:
-            vio.append(("INIT-AFTER-INIT", "initialiser entered in a run that started after a complete initialisation"))
-            raced = {}
     any_raced = bool(raced)
     for ev, kind, text in run["viol"]:
         if kind.startswith("VR-"):
@@ -242,6 +266,115 @@ def classify(run):
         if mon != mod and run["status"] == "ok":
             vio.append(("MONITOR-MODEL-DISAGREE", "reader inside a transform during a rebuild: real-code monitor %s, model replay %s" % (mon, mod)))
     return vio, known
+
+
+# ====================================================================== free-running threads (no scheduler)
+
+STRESS_JOBS = [
+    "Q:1:50:2:1:400+Q:4:50:1:4:900+Q:6:50:1:3:400/Q:2:50:3:2:500+Q:4:50:1:4:900+Q:4:0:2:1:600/Q:6:50:2:1:600+V:1500:800+Q:4:25:1:2:500",
+    "Q:4:50:2:1:600+Q:4:50:1:4:2000/Q:4:50:1:2:500+Q:3:50:48000:44100:500/Q:2:50:1:3:500+Q:4:50:1:4:2000",
+    "Q:6:50:2:1:600+Q:6:0:3:2:500/Q:5:50:1:2:500+Q:6:75:1:2:500/V:700:600+Q:5:50:3:2:400",
+]
+TSAN_SUPP = "race_top:_soxr_init_fft_cache\nrace_top:^soxr_create$\n"    # top frame only: nothing below soxr_create is hidden
+
+
+def parse_tsan(err):
+    """ThreadSanitizer stderr -> list of reports {summary, location, tops: [(function, file:line)] of the two accesses, text}"""
+    out = []
+    for blk in err.split("=================="):
+        if "WARNING: ThreadSanitizer" not in blk:
+            continue
+        tops = re.findall(r"#0 (\S+) (\S+?:\d+)", blk)
+        loc = re.search(r"Location is (global '[^']+'|heap block of size \d+)", blk)
+        summ = re.search(r"SUMMARY: ThreadSanitizer: (.*)", blk)
+        out.append({"summary": summ.group(1) if summ else "?", "location": loc.group(1) if loc else "?",
+                    "tops": [t for t in tops if "pthread_create" not in t[0]][:2], "text": blk.strip()[:2500]})
+    return out
+
+
+def src_line(fileline):
+    try:
+        f, n = fileline.rsplit(":", 1)
+        return open(f).read().splitlines()[int(n) - 1]
+    except Exception:
+        return ""
+
+
+def tsan_known(rep):
+    """-> "benign" | "F9" | None.  F9 (c): the lazy initialiser's unguarded test / the assert in front of the lock read FFT_LEN
+    while a writer that holds the lock stores it - a C data race also after initialisation, value-benign (both values >= 0)."""
+    if rep["location"] == "global '_soxr_trace_level'":
+        return "benign"
+    if rep["location"] in ("global 'fft_len'", "global 'fft_len_f'"):
+        for fn, fl in rep["tops"]:
+            line = src_line(fl)
+            if "FFT_LEN >= 0" in line or "assert(FFT_LEN == -1)" in line:      # `if (FFT_LEN >= 0) return;` / the asserts before the lock
+                return "F9"
+    return None
+
+
+def free_running(ctx, f9_active):
+    """Real threads, initialisation completed first.  (1) release build: outputs of every job of every thread and round equal the
+    serial runs; (2) ThreadSanitizer build, twice: as is (the known races are reported and classified) and with the two known
+    report classes suppressed (so that they cannot hide another race at the same address).  Anything else is a violation."""
+    res = {"rel_jobs": 0, "tsan_jobs": 0, "tsan_reports": 0, "tsan_known": {}}
+    rel = common.build_harness("stress", ["conc/stress.c"], variant="rel")
+    ts = common.build_harness("stress", ["conc/stress.c"], variant="tsan")
+    rng = ctx.rng
+    for i, jobs in enumerate(STRESS_JOBS if not ctx.quick else STRESS_JOBS[:2]):
+        for rep_i in range(3 if ctx.quick else 12):
+            nthr = rng.choice([3, 4, 6, 8])
+            rounds = rng.choice([5, 10, 20])
+            cmd = [rel, str(rounds), str(nthr), jobs, str(rep_i % 2)]
+            p = subprocess.run(cmd, stdout=subprocess.PIPE, stderr=subprocess.PIPE, universal_newlines=True, timeout=900)
+            m = re.search(r"STRESS rounds=\d+ threads=\d+ jobs=(\d+) wrong=(\d+) errors=(\d+)", p.stdout)
+            if not m:
+                ctx.violation("free-running threads (initialisation completed first): run failed (exit %s): %s" % (p.returncode, p.stderr[-400:]),
+                              {"cmd": " ".join(cmd)})
+                continue
+            res["rel_jobs"] += int(m.group(1))
+            if int(m.group(2)) or int(m.group(3)):
+                ctx.violation("free-running threads after a completed initialisation: %s job(s) produced output different from the serial run, "
+                              "%s reported an error" % (m.group(2), m.group(3)), {"cmd": " ".join(cmd)})
+    tmp = tempfile.mkdtemp(prefix="conc-tsan-", dir=common.BUILD)
+    try:
+        supp = os.path.join(tmp, "supp")
+        open(supp, "w").write(TSAN_SUPP)
+        for jobs in (STRESS_JOBS if not ctx.quick else STRESS_JOBS[:2]):
+            for mode in ("plain", "suppressed"):
+                opts = "halt_on_error=0 exitcode=0 history_size=4" + (" suppressions=" + supp if mode == "suppressed" else "")
+                cmd = [ts, "12" if ctx.quick else "40", "5", jobs, "1"]
+                p = subprocess.run(cmd, stdout=subprocess.PIPE, stderr=subprocess.PIPE, universal_newlines=True, timeout=1800,
+                                   env=dict(os.environ, TSAN_OPTIONS=opts))
+                m = re.search(r"STRESS rounds=\d+ threads=\d+ jobs=(\d+) wrong=(\d+) errors=(\d+)", p.stdout)
+                replay = {"cmd": "TSAN_OPTIONS='%s' %s" % (opts, " ".join(cmd)), "suppressions": TSAN_SUPP if mode == "suppressed" else ""}
+                if not m:
+                    if "FATAL: ThreadSanitizer" in p.stderr or "unexpected memory mapping" in p.stderr:
+                        ctx.notes.append("ThreadSanitizer could not run here: " + p.stderr[-200:])
+                        res["tsan_unavailable"] = True
+                        break
+                    ctx.violation("ThreadSanitizer run failed (exit %s): %s" % (p.returncode, p.stderr[-400:]), replay)
+                    continue
+                res["tsan_jobs"] += int(m.group(1))
+                if int(m.group(2)) or int(m.group(3)):
+                    ctx.violation("ThreadSanitizer build: %s job(s) differ from the serial run, %s errors" % (m.group(2), m.group(3)), replay)
+                for r in parse_tsan(p.stderr):
+                    res["tsan_reports"] += 1
+                    k = tsan_known(r)
+                    if k == "benign":
+                        res["tsan_known"]["_soxr_trace_level (benign)"] = res["tsan_known"].get("_soxr_trace_level (benign)", 0) + 1
+                    elif k == "F9" and f9_active:
+                        res["tsan_known"]["F9 unguarded read of FFT_LEN"] = res["tsan_known"].get("F9 unguarded read of FFT_LEN", 0) + 1
+                        res["f9_tsan"] = ("ThreadSanitizer (real threads, after a completed initialisation): the unguarded test of LSX_INIT_FFT_CACHE reads "
+                                          "FFT_LEN while a writer holding the lock stores it (%s)" % r["summary"])
+                    else:
+                        replay2 = dict(replay, report=r["text"])
+                        ctx.violation("data race after a completed initialisation (ThreadSanitizer, real threads): %s; location %s; accesses in %s"
+                                      % (r["summary"], r["location"], ", ".join("%s (%s)" % t for t in r["tops"])), replay2)
+    finally:
+        shutil.rmtree(tmp, ignore_errors=True)
+    ctx.cov["free_running"] = res
+    return res
 
 
 # ====================================================================== C06, threads clause
